@@ -1,6 +1,12 @@
 use std::collections::HashMap;
 
-use crate::ast::{Choice, Condition, Expression, Flow, Node, ParsedStory};
+use crate::{
+    ast::{
+        BinaryOperator, Choice, Condition, DynamicStringPart, Expression, Flow, Node, ParsedStory,
+    },
+    error::CompilerError,
+    inline::parse_dynamic_string,
+};
 
 pub(crate) fn resolve(mut story: ParsedStory) -> ParsedStory {
     if story.consts.is_empty() {
@@ -105,4 +111,146 @@ fn resolve_expression(expression: &mut Expression, consts: &HashMap<String, Expr
         }
         _ => {}
     }
+}
+
+/// The value of a constant (sub)expression, as far as the check of initial values
+/// needs it: numbers (a boolean counts as 0 or 1 in arithmetic) and strings, of
+/// which only the type matters.
+#[derive(Clone, Copy)]
+enum Folded {
+    Int(i32),
+    Float(f32),
+    Str,
+}
+
+/// The initial values of the global variables are evaluated when the story is
+/// created, so a value that cannot be evaluated makes a story that cannot even be
+/// loaded. What can be seen to fail in the constant parts of the expression is
+/// rejected here: a division or remainder by zero (a float one gives an infinity
+/// or NaN, which a story cannot hold either), an integer division that overflows,
+/// and `-`, `*`, `/`, `%` applied to a string. Only literals combined with `+ - * / %`
+/// and unary minus are folded, the way the runtime evaluates them; what refers to
+/// other variables or calls functions is left to the runtime.
+pub(crate) fn check_initial_value(
+    name: &str,
+    expression: &Expression,
+) -> Result<(), CompilerError> {
+    match fold(expression) {
+        Ok(_) => Ok(()),
+        Err(problem) => Err(CompilerError::invalid_source(format!(
+            "the initial value of '{name}' cannot be evaluated: {problem}"
+        ))),
+    }
+}
+
+fn fold(expression: &Expression) -> Result<Option<Folded>, String> {
+    match expression {
+        Expression::Bool(value) => Ok(Some(Folded::Int(i32::from(*value)))),
+        Expression::Int(value) => Ok(Some(Folded::Int(*value))),
+        Expression::Float(value) => Ok(Some(Folded::Float(*value))),
+        Expression::Str(text) => {
+            // The expressions printed inside the string are evaluated with it.
+            if let Ok(dynamic) = parse_dynamic_string(text) {
+                for part in &dynamic.parts {
+                    if let DynamicStringPart::Expression(inner) = part {
+                        fold(inner)?;
+                    }
+                }
+            }
+            Ok(Some(Folded::Str))
+        }
+        Expression::Negate(inner) => match fold(inner)? {
+            Some(Folded::Int(value)) => Ok(Some(Folded::Int(value.wrapping_neg()))),
+            Some(Folded::Float(value)) => Ok(Some(Folded::Float(-value))),
+            Some(Folded::Str) => Err("'-' cannot be applied to a string".to_owned()),
+            None => Ok(None),
+        },
+        Expression::Not(inner) => {
+            fold(inner)?;
+            Ok(None)
+        }
+        Expression::FunctionCall { args, .. } => {
+            for argument in args {
+                fold(argument)?;
+            }
+            Ok(None)
+        }
+        Expression::Binary {
+            left,
+            operator,
+            right,
+        } => {
+            // (both operands are always evaluated, also those of `&&` and `||`)
+            let left = fold(left)?;
+            let right = fold(right)?;
+            match (left, right) {
+                (Some(left), Some(right)) => fold_binary(left, *operator, right),
+                _ => Ok(None),
+            }
+        }
+        Expression::Variable(_)
+        | Expression::DivertTarget(_)
+        | Expression::ListItems(_)
+        | Expression::EmptyList => Ok(None),
+    }
+}
+
+/// The runtime brings both operands to the "higher" of their types (int, then
+/// float, then string) before it applies the operator.
+fn fold_binary(
+    left: Folded,
+    operator: BinaryOperator,
+    right: Folded,
+) -> Result<Option<Folded>, String> {
+    let symbol = match operator {
+        BinaryOperator::Add => '+',
+        BinaryOperator::Subtract => '-',
+        BinaryOperator::Multiply => '*',
+        BinaryOperator::Divide => '/',
+        BinaryOperator::Modulo => '%',
+        _ => return Ok(None),
+    };
+
+    let folded = match (left, right) {
+        (Folded::Str, _) | (_, Folded::Str) => {
+            if operator != BinaryOperator::Add {
+                return Err(format!("'{symbol}' cannot be applied to a string"));
+            }
+            Folded::Str
+        }
+        (Folded::Int(left), Folded::Int(right)) => Folded::Int(match operator {
+            BinaryOperator::Add => left.wrapping_add(right),
+            BinaryOperator::Subtract => left.wrapping_sub(right),
+            BinaryOperator::Multiply => left.wrapping_mul(right),
+            _ if right == 0 => {
+                return Err(format!("{left} {symbol} {right} is a division by zero"));
+            }
+            BinaryOperator::Divide => left
+                .checked_div(right)
+                .ok_or_else(|| format!("{left} {symbol} {right} overflows"))?,
+            _ => left
+                .checked_rem(right)
+                .ok_or_else(|| format!("{left} {symbol} {right} overflows"))?,
+        }),
+        (left, right) => {
+            let as_float = |value| match value {
+                Folded::Int(value) => value as f32,
+                Folded::Float(value) => value,
+                Folded::Str => unreachable!("strings are handled above"),
+            };
+            let (left, right) = (as_float(left), as_float(right));
+            Folded::Float(match operator {
+                BinaryOperator::Add => left + right,
+                BinaryOperator::Subtract => left - right,
+                BinaryOperator::Multiply => left * right,
+                _ if right == 0.0 => {
+                    return Err(format!("{left} {symbol} {right} is a division by zero"));
+                }
+                BinaryOperator::Divide => left / right,
+                _ => left % right,
+            })
+        }
+    };
+
+    Ok(Some(folded))
 }
